@@ -239,6 +239,22 @@ theorem C34_reader_released {d : Bool} {n : Nat} {s : Sys} (h : Reach false d n 
     (hp : x.phase = .parked) : ∃ e ∈ s.hist, e.ts ≤ x.t.readTs ∧ e.ts ∉ s.doneCommits :=
   SysInv.parked_has_reason h hq tid x hx hp
 
+/-- **`txnMark` never reports a timestamp done that has not been handed out yet** (nor `readMark` a
+    read timestamp that could not have been handed out): `DoneUntil() < nextTxnTs` for both marks in
+    every reachable state — also in the states right after a commit was rejected by
+    `sendToWriteCh` (its timestamp stays consumed: `doneCommit`). If the timestamp were handed back
+    (`nextTxnTs = cts` with `txnMark.Done(cts)`, seeded/C03-abort-commit-ts-reuse) the next commit would
+    be considered applied before it is written and `C34_readTs_sees_applied` would fail. -/
+theorem C34_marks_below_next {d : Bool} {n : Nat} {s : Sys} (h : Reach false d n s) :
+    s.o.txnMark.doneUntil < s.o.nextTxnTs ∧ s.o.readMark.doneUntil < s.o.nextTxnTs := by
+  have hI := h.inv
+  refine ⟨?_, hI.readDoneUntil_lt⟩
+  have h1 := hI.tmTracks.le_virt
+  have h2 := hI.tmVirt.1.duLe
+  have h3 := hI.tmMax
+  simp only [AWM.doneUntil]
+  omega
+
 -- non-vacuity: a reader that starts while commit 1 is in flight parks, and is released by doneCommit
 example : (((Sys.opened false true 0).runLabels
     [.procTxnMark, .begin true, .waitCheck 0, .write 0 1, .commit 0, .begin false, .waitCheck 1,
